@@ -245,7 +245,19 @@ def r15_6(ctx: Ctx) -> None:
         if f.module != "py7zr":
             continue
         cfg = cfg_of(f.node)
+        own_try = {id(h): t for t in walk(f.node) if isinstance(t, ast.Try) for h in t.handlers}
+        params = set(f.params) - {"self"}
         for h in [n for n in walk(f.node) if isinstance(n, ast.ExceptHandler)]:
+            t = own_try.get(id(h))
+            if t is not None:
+                # a try whose body touches neither a parameter of the function nor another method (only the archive's own handle,
+                # `self.fp...`) cannot fail because of a SOURCE: nothing of the caller's is dropped by its handler
+                body_nodes = [x for st in t.body for x in ast.walk(st)]
+                touches = any(isinstance(x, ast.Name) and x.id in params for x in body_nodes) or \
+                    any(isinstance(x, ast.Call) and isinstance(x.func, ast.Attribute) and norm(x.func.value) == "self" for x in body_nodes) or \
+                    any(isinstance(x, ast.Call) and isinstance(x.func, ast.Name) and (x.func.id in ctx.prog.module(f.module).funcs or x.func.id in ctx.prog.module(f.module).imports) for x in body_nodes)
+                if not touches:
+                    continue
             names = {n.id for n in ast.walk(h.type) if isinstance(n, ast.Name)} | {n.attr for n in ast.walk(h.type) if isinstance(n, ast.Attribute)} if h.type is not None else {"BaseException"}
             if not names & {"OSError", "IOError", "EnvironmentError", "Exception", "BaseException"}:
                 continue
